@@ -8,6 +8,14 @@ PART_FAMILY = {"8": "8", "16": "16", "32": "32", "64": "64", "f32": "f32", "f64"
 INT_PARTS = ["8", "16", "32", "64"]
 FLT_PARTS = ["f32", "f64"]
 
+FLOAT_COVER = {"none@gcc11", "SSE2@gcc11", "SSE4_1@gcc11", "AVX2+FMA@gcc11", "F@gcc11", "VL+BW+DQ@gcc11", "FULL@clang11"}
+
+
+def exh_quick_flags(cfg, tier):
+    """quick tier: the exhaustive 2^32 float passes run only for the configurations that select distinct float arms"""
+    return ["-DVX_EXH_QUICK=1"] if (tier == "quick" and cfg.name in FLOAT_COVER) else []
+
+
 TUS = {
     "t_arith": {"sources": ["t_arith.cpp"], "parts": INT_PARTS},
     "t_cmp": {"sources": ["t_cmp.cpp"], "parts": INT_PARTS + FLT_PARTS},
@@ -15,8 +23,17 @@ TUS = {
     "t_bitwise": {"sources": ["t_bitwise.cpp"], "parts": INT_PARTS},
     "t_shiftc": {"sources": ["t_shiftc.cpp"], "parts": INT_PARTS},
     "t_div": {"sources": ["t_div.cpp"], "parts": INT_PARTS},
+    "t_farith": {"sources": ["t_farith.cpp"], "parts": FLT_PARTS},
+    "t_fround": {"sources": ["t_fround.cpp"], "parts": FLT_PARTS, "cfg_flags": exh_quick_flags, "shards": {"quick": {"f32": 6}, "thorough": {"f32": 12, "f64": 2}}},
     "t_select": {"sources": ["t_select.cpp"], "parts": INT_PARTS + FLT_PARTS},
 }
+
+def shards_for(tu, tier, part):
+    sh = TUS[tu].get("shards", {}).get(tier, 1)
+    if isinstance(sh, dict):
+        sh = sh.get(part, 1)
+    return sh
+
 
 COMMON_ASSUMPTIONS = [
     "compiler correctness (GCC 12.2 / Clang 14) at -O2; other optimisation levels are not explored",
@@ -101,5 +118,26 @@ PROPS = {
                 "non-trivial: |quotient| >= 2.",
         "explanation": "div(x,y).quot/.rem, x/y, x%y, /=, %= and quot*y+rem on every pair, against __int128 truncating division; SIGFPE in any vector op is a violation",
         "assumptions": [],
+    },
+    "C10": {
+        "tus": ["t_farith"],
+        "configs": int_cfgs,
+        "rule": "for each of the four rounding modes: every pair of F32L x F32L (every exponent x boundary mantissas x sign, subnormal powers of two, both NaN kinds) "
+                "and F64L x F64L for + - * / and compound forms; F32L u F32H (halfway cases) / F64S for ++/--, unary minus and sqrt (all 2^32 floats for sqrt in thorough); "
+                "KF x KF in every lane against seven neighbour fills. non-trivial: result is NaN, zero, infinite or subnormal, or an operand is NaN.",
+        "explanation": "every arithmetic operator on every pair in every rounding mode against the hardware scalar operation under the same mode (volatile operands); "
+                       "NaN results compare as NaN, everything else bit for bit; unary minus is compared with an xor of the sign bit",
+        "assumptions": ["the hardware scalar SSE operation under fesetround() is the IEEE-754 reference"],
+    },
+    "C11": {
+        "tus": ["t_fround"],
+        "configs": int_cfgs,
+        "rule": "ceil/floor/trunc/round: every one of the 2^32 float bit patterns for the widest float vector of each configuration class (every width in thorough), "
+                "F32L u F32H for the other widths, F64S for double; nearbyint/rint: the same in round-to-nearest and F32L u F32H / F64S in the other three modes "
+                "(exhaustive in every mode in thorough); KF in every lane against every fill. non-trivial: finite non-integral input below 2^23 (2^52).",
+        "explanation": "every rounding function on every bit pattern against <cmath> under the same rounding mode; comparison is bit for bit when the input is "
+                       "integral, infinite or zero (so f(-0.0) must be -0.0), NaN for NaN, and by value otherwise (libm's -0.0 for inputs in (-1,-0) equals AVEL's +0.0). "
+                       "The MXCSR/x87 control words are compared before and after every exploration in every harness of C01..C17 (second clause).",
+        "assumptions": ["glibc's ceilf/floorf/truncf/roundf/nearbyintf/rintf (inlined as SSE4.1 rounding instructions) are the reference"],
     },
 }
